@@ -20,7 +20,7 @@ fn target_bytes(s: &mut Session, addr: &str) -> Vec<u8> {
     unhex(&s.run(&format!("addr.enc s5 {}", addr))).unwrap_or_default()
 }
 
-fn spec(s: &mut Session, cr: &mut Crafter, q: &str) -> String {
+pub fn spec(s: &mut Session, cr: &mut Crafter, q: &str) -> String {
     let a = cr.ask(q);
     let shown = if q.len() > 300 { format!("{}…", &q[..300]) } else { q.to_owned() };
     let shown_a = if a.len() > 300 { format!("{}…", &a[..300]) } else { a.clone() };
@@ -237,6 +237,46 @@ fn vm_both(s: &mut Session, cr: &mut Crafter, rng: &mut Rng, cipher: &'static st
     s.mark_nontrivial();
 }
 
+/// a Spec-built VMess request for any option mask and cipher: sealed header (chosen body key / IV) followed by
+/// reference body chunks (`payloads`: hex chunks joined by `;`, `-` = the empty end-of-transmission chunk, `none`
+/// = no chunk), optionally followed by a chunk header whose size field is forged to `forge`
+pub fn vm_crafted_request(s: &mut Session, cr: &mut Crafter, rng: &mut Rng, uuid: &str, vm_target: &[u8], mask: u32, sec: u32, payloads: &str, forge: Option<usize>) -> Option<Vec<u8>> {
+    let (iv, key16) = (rng.bytes(16), rng.bytes(16));
+    let padding = rng.bytes(rng.clone().below(16) as usize);
+    let instr = spec(s, cr, &format!("craft.vm.instr iv={} key={} v={} opt={} padsec={} cmd=1 pta={} padding={}", hex(&iv), hex(&key16), rng.clone().below(256), mask, padding.len() as u32 * 16 + sec, hex(vm_target), hex(&padding)));
+    let time = now_secs() as i64 + rng.range(0, 40) as i64 - 20;
+    let head = spec(s, cr, &format!("craft.vm.req uuid={} time={} rand={} nonce={} header={}", uuid, time, hex(&rng.bytes(4)), hex(&rng.bytes(8)), instr));
+    let body = spec(s, cr, &format!("craft.vm.body mask={} sec={} key={} iv={} payloads={}{}", mask, sec, hex(&key16), hex(&iv), payloads, forge.map(|n| format!(" forge={}", n)).unwrap_or_default()));
+    Some([unhex(&head)?, unhex(&body)?].concat())
+}
+
+/// every option combination a third-party client may choose (this repository's own client always sends 0x1d), both
+/// ciphers, with the reference implementations' empty end-of-transmission chunk at the end: same target, same payload
+fn vm_masks(s: &mut Session, cr: &mut Crafter, rng: &mut Rng) {
+    for sec in [3u32, 4] {
+        for mask in [0x01u32, 0x05, 0x09, 0x0d, 0x11, 0x15, 0x19, 0x1d] {
+            s.begin_case(&format!("vmess-accept:mask{:02x}:sec{}", mask, sec));
+            let uuid = random_uuid(rng);
+            let addr = random_addr(rng);
+            let vm_target = unhex(s.run(&format!("addr.enc vm {}", addr)).strip_prefix("ok ").unwrap_or("-")).unwrap_or_default();
+            let sv = s.fresh("s");
+            s.run(&format!("vm.server {} users=u:{}", sv, uuid));
+            let (p1, p2) = (rng.bytes(1 + rng.clone().below(400) as usize), rng.bytes(1 + rng.clone().below(1900) as usize));
+            let Some(wire) = vm_crafted_request(s, cr, rng, &uuid, &vm_target, mask, sec, &format!("{};{};-", hex(&p1), hex(&p2)), None) else {
+                s.oracle_fail("craft", "spec builder unavailable");
+                return;
+            };
+            let style = rng.below(5);
+            let pieces = cut(rng, &wire, 1, if style == 1 { 2 } else { style });
+            let d = feed_all(s, &sv, &pieces, false);
+            if d.err || d.panic || d.connect.as_deref() != Some(addr.as_str()) || d.data != [p1, p2].concat() {
+                s.oracle_fail("vmess-accept", &format!("reference-built request with options {:#04x}, security {} (and the empty end chunk) not accepted with the same result (err={} addr={:?} {} bytes)", mask, sec, d.err, d.connect, d.data.len()));
+            }
+            s.mark_nontrivial();
+        }
+    }
+}
+
 fn tj_both(s: &mut Session, cr: &mut Crafter, rng: &mut Rng) {
     s.begin_case("trojan");
     let len = rng.range(1, 30) as usize;
@@ -283,6 +323,14 @@ pub fn generate(s: &mut Session, tier: &str, rng: &mut Rng) {
             vm_both(s, &mut cr, rng, cipher);
         }
         tj_both(s, &mut cr, rng);
+        vm_masks(s, &mut cr, rng);
+        // datagram layouts: byte-exact against the model (Octo.SsUdp.encode = the layouts of c03_ss_udp_layout), sizes from 0
+        for cipher in CIPHERS {
+            crate::c02::ss_udp_case(s, rng, cipher, false, false);
+            if eih(cipher) {
+                crate::c02::ss_udp_case(s, rng, cipher, true, false);
+            }
+        }
     }
     // the nonce sequences of the specifications, far beyond the lengths the stream cases reach
     crate::c12::nonce_generator_cases(s, tier, rng);
